@@ -114,6 +114,7 @@ class Session:
         self.pending_restore = []
         self.detached_output_events = []
         self.detached_now = set()
+        self.session_new_dirs = set()
 
     def count(self, k, n=1):
         self.stats[k] = self.stats.get(k, 0) + n
@@ -323,6 +324,9 @@ class Session:
                 ncmd = sum(1 for ev in world.log[log0:] if ev[2] == "cmd_start")
                 self.count("rebuild_commands", ncmd)
                 self.count("rebuilds")
+                # every directory the user created since the director started watching: a
+                # directory that was missed once (F17) stays unwatched in later phases
+                self.session_new_dirs.update(ev[5] for ev in world.log[log0:] if ev[2] == "fs" and ev[3] == "user" and ev[4] == "mkdir")
                 if perturbed:
                     self.count("rebuilds_not_compared_edit_during_build")
                     shutil.rmtree(fork_root, ignore_errors=True)
@@ -330,7 +334,7 @@ class Session:
                     self.count("rebuilds_not_compared_event_while_detached")
                     shutil.rmtree(fork_root, ignore_errors=True)
                 else:
-                    new_dirs = sorted({ev[5] for ev in world.log[log0:] if ev[2] == "fs" and ev[3] == "user" and ev[4] == "mkdir"})
+                    new_dirs = sorted(self.session_new_dirs)
                     stale = any(ev[2] == "stale_child" for ev in world.log[log0:])
                     self.forks.append((k, fork_root, self.observe(world), ncmd, nrecorded,
                                        (new_dirs, stale, list(self.detached_output_events))))
